@@ -150,10 +150,10 @@ fn strategy(lo: usize, hi: usize) -> BoxedStrategy<Case> {
     prop_oneof![
         cfg_among(&SK, 512, no_mult)
             .prop_flat_map(move |cfg| { let h2 = hi.max(3 * cfg.n() + 40); (Just(cfg), prop_oneof![6 => stream(Domain::PositiveGrid, lo, h2), 6 => stream(Domain::Positive, lo, h2), 1 => stream(Domain::TinyPositive, lo, h2)]) })
-            .prop_map(|(cfg, s)| Case { cfg, scalar: true, xs: xs(&s.vals), bars: vec![] }),
+            .prop_map(|(cfg, s)| Case { cfg, scalar: true, xs: xs(&s.vals), bars: vec![], stride: 0 }),
         cfg_among(&BK, 512, no_mult)
             .prop_flat_map(move |cfg| { let h2 = hi.max(3 * cfg.n() + 40); (Just(cfg), prop_oneof![6 => bar_stream(true, lo, h2), 6 => bar_stream(false, lo, h2), 1 => bar_stream_tiny(lo, h2)]) })
-            .prop_map(|(cfg, s)| Case { cfg, scalar: false, xs: vec![], bars: s.bars }),
+            .prop_map(|(cfg, s)| Case { cfg, scalar: false, xs: vec![], bars: s.bars, stride: 0 }),
     ]
     .boxed()
 }
@@ -175,7 +175,7 @@ pub fn run(g: &mut Global) {
         &move |i| {
             let cfg = sc[(i / per) as usize].clone();
             let d = digits(i % per, 4, d1);
-            Case { cfg, scalar: true, xs: d.iter().map(|&j| X(SALPHA[j])).collect(), bars: vec![] }
+            Case { cfg, scalar: true, xs: d.iter().map(|&j| X(SALPHA[j])).collect(), bars: vec![], stride: 0 }
         },
         &check,
     );
@@ -188,11 +188,14 @@ pub fn run(g: &mut Global) {
         &move |i| {
             let cfg = bc[(i / perb) as usize].clone();
             let d = digits(i % perb, 6, d2);
-            Case { cfg, scalar: false, xs: vec![], bars: d.iter().map(|&j| ba[j]).collect() }
+            Case { cfg, scalar: false, xs: vec![], bars: d.iter().map(|&j| ba[j]).collect(), stride: 0 }
         },
         &check,
     );
     g.random("random", g.tier.pick(40000, 200000), &|| strategy(1, 400), &check);
     let (lo, hi, cnt) = g.tier.pick((2000usize, 5000usize, 160u32), (20000usize, 50000usize, 320u32));
     g.random("long", cnt, &move || strategy(lo, hi), &check);
+    if g.tier == Tier::Thorough {
+        g.fuzz_stage("ops_pred", Some(0), 600_000, "random", &|b| crate::fuzzdec::decode_c07(b), &check);
+    }
 }
